@@ -967,6 +967,8 @@ def run(ctx):
                 if st[0] == "func" and st[1] in mon:
                     per_arg.setdefault(st[3], set()).add(st[2])
             mixed = any("Exp" in fs and fs & {"Sin", "Cos"} for fs in per_arg.values())
+            what = (f"program with Sin/Cos/Exp assignments, goal E({g}) at n={n}: Polar's closed form {gr['closed_form'][:100]} "
+                    f"gives {str(pv)[:60]}, the true expectation is {tv[:40]}")
             sig = KNOWN_SIG if mixed else f"program:{lab}:{g}:{json.dumps(prog, sort_keys=True)}"
             dec_args = [st[3] for st in _flat(prog["body"]) if st[0] == "func" and st[1] in _deps(prog, mon)
                         and "." in st[3]]
@@ -983,8 +985,6 @@ def run(ctx):
                                  if q[0] == "func" and q[3] == st[1] and q[2] in ("Sin", "Cos") and q[1] in mon)
                         if tp >= 2 and tp % 2 == 0:
                             sig = KNOWN_BETA
-            what = (f"program with Sin/Cos/Exp assignments, goal E({g}) at n={n}: Polar's closed form {gr['closed_form'][:100]} "
-                    f"gives {str(pv)[:60]}, the true expectation is {tv[:40]}")
             new = ctx.violation(sig, {"prog": prog, "acc": acc, "goals": goals, "exact": ex, "label": lab, "text": text, "goal": g,
                                       "n": n, "polar_value": pv, "true_value": tv, "closed_form": gr["closed_form"]}, what)
             if not new:
